@@ -408,6 +408,20 @@ where
             let root = &commitment.root;
             let t = calculate_t::<F>(vk.sec_param(), vk.distance(), n_ext_cols)?;
 
+            // The shape of the proof is dictated by the commitment and the key:
+            // exactly `t` opened columns with their paths, and vectors of `n_cols` entries.
+            if proof.opening.columns.len() != t
+                || proof.opening.paths.len() != t
+                || proof.opening.v.len() != n_cols
+            {
+                return Err(Error::InvalidCommitment);
+            }
+            if let Some(well_formedness) = &proof.well_formedness {
+                if well_formedness.len() != n_cols {
+                    return Err(Error::InvalidCommitment);
+                }
+            }
+
             sponge.absorb(&to_bytes!(&commitment.root).map_err(|_| Error::TranscriptError)?);
 
             let out = if vk.check_well_formedness() {
@@ -456,8 +470,12 @@ where
                     return Err(Error::InvalidCommitment);
                 }
 
-                path.verify(leaf_hash_param, two_to_one_hash_param, root, leaf.clone())
-                    .map_err(|_| Error::InvalidCommitment)?;
+                if !path
+                    .verify(leaf_hash_param, two_to_one_hash_param, root, leaf.clone())
+                    .map_err(|_| Error::InvalidCommitment)?
+                {
+                    return Ok(false);
+                }
             }
 
             // Helper closure: checks if a.b = c.
